@@ -140,19 +140,22 @@ def get_username(uid):
 def set_owner_process(uid, gid, initgroups=False):
     """ set user and group of workers processes """
 
-    if gid:
-        if uid:
-            try:
-                username = get_username(uid)
-            except KeyError:
-                initgroups = False
+    # the supplementary groups are those of the configured user, whether or
+    # not a group was configured too (without a user there is no name to
+    # look them up for)
+    username = None
+    if uid and initgroups:
+        try:
+            username = get_username(uid)
+        except KeyError:
+            pass
+    if username is not None:
+        os.initgroups(username, gid)
 
-        # initgroups() only fills the supplementary group list: the primary
-        # group still has to be set
-        if initgroups:
-            os.initgroups(username, gid)
-        if gid != os.getgid():
-            os.setgid(gid)
+    # initgroups() only fills the supplementary group list: the primary
+    # group still has to be set
+    if gid and gid != os.getgid():
+        os.setgid(gid)
 
     if uid and uid != os.getuid():
         os.setuid(uid)
